@@ -45,7 +45,9 @@ class CaseCtx:
         self.style = "wrap" if hs % 2 else None
         if os.environ.get("VERIF_STYLES", "1") == "1":
             # further spellings, varied per shape: fixtures renamed with name=, async generator fixtures, CRLF line endings
-            self.style = ["", "wrap", "alias", "async", "crlf", "wrap+alias", "async+crlf", "wrap+alias+async+crlf"][hs % 8] or None
+            # ... and string-literal forms of usefixtures / pytestmark arguments (u"..", r'..', triple quotes)
+            self.style = ["", "wrap", "alias", "async", "crlf", "wrap+alias", "async+crlf", "wrap+alias+async+crlf",
+                          "strform", "strform+wrap", "strform+crlf+alias", "strform+async"][hs % 12] or None
         for slot, mod in case["ws"].items():
             self.files[slot] = R.render_checked(UNI, slot, mod, self.style)
 
@@ -90,6 +92,13 @@ class CaseCtx:
         r = self.files[slot]
         for key, (ln, cs, ce) in r.use_pos.items():
             if ln == u["line"] and cs == u["sc"] and ce == u["ec"]:
+                it = _item(self.case, slot, key[0])
+                if _use_name(it, key[1], key[2]) == u["name"]:
+                    return (slot, key[0], key[1], key[2])
+        # string usages (usefixtures / pytestmark): the recorded range is the literal minus one character at each end
+        # (known finding quote_strip_pm1 of C15) -- identity is decided by line, name and OVERLAP with the content span
+        for key, (ln, cs, ce) in r.use_pos.items():
+            if key[1] in ("m", "c", "pm") and ln == u["line"] and u["sc"] < ce and cs < u["ec"]:
                 it = _item(self.case, slot, key[0])
                 if _use_name(it, key[1], key[2]) == u["name"]:
                     return (slot, key[0], key[1], key[2])
